@@ -1,1 +1,1 @@
-pub use detsim::chan::{unbounded, Receiver, RecvError, Select, SendError, Sender, TryRecvError};
+pub use detsim::chan::{bounded, unbounded, Receiver, RecvError, Select, SendError, Sender, TryRecvError};
